@@ -48,6 +48,9 @@ VARIANTS = [
     ("slip39: member count refusal as two comparisons", "btclib.mnemonic.slip39", lambda s: s.replace("        if len(members) != threshold:", "        if len(members) < threshold or len(members) > threshold:")),
     ("descriptors: index_of loop variable renamed", "btclib.descriptors.descriptors", lambda s: s.replace("                candidate.script == script\n                for candidate in self.script_pub_keys(index, prv_keys)", "                derived.script == script\n                for derived in self.script_pub_keys(index, prv_keys)")),
     ("psbt: assert_signatures_only unknown check moved up", "btclib.psbt.psbt", lambda s: s.replace("    if returned.fallback_lock_time != request.fallback_lock_time:\n        raise BTClibValueError(\"fallback_lock_time was changed\")\n    if returned.hd_key_paths != request.hd_key_paths:\n        raise BTClibValueError(\"the global hd_key_paths were changed\")", "    if returned.hd_key_paths != request.hd_key_paths:\n        raise BTClibValueError(\"the global hd_key_paths were changed\")\n    if returned.fallback_lock_time != request.fallback_lock_time:\n        raise BTClibValueError(\"fallback_lock_time was changed\")")),
+    ("bech32: the separator checks moved into a private helper", "btclib.bech32", lambda s: s.replace("    if pos == -1:\n        raise BTClibValueError(f\"no separator character: {text}\")\n    if pos == 0:\n        raise BTClibValueError(f\"empty HRP: {text}\")\n", "    _assert_separator(pos, text)\n").replace("def _decode(bech: String)", "def _assert_separator(where: int, whole: str) -> None:\n    if where == -1:\n        raise BTClibValueError(f\"no separator character: {whole}\")\n    if where == 0:\n        raise BTClibValueError(f\"empty HRP: {whole}\")\n\n\ndef _decode(bech: String)")),
+    ("taproot: the tweak range test given a name", "btclib.script.taproot", lambda s: s.replace("    if t >= secp256k1.n:\n", "    out_of_range = t >= secp256k1.n\n    if out_of_range:\n", 1)),
+    ("fee: negative vsize test given a name", "btclib.fee", lambda s: s.replace("    if vsize < 0:\n", "    negative = vsize < 0\n    if negative:\n", 1)),
     ("script_op_codes: stack size comparison flipped", "btclib.script.engine.script_op_codes", lambda s: s.replace("len(stack) + len(altstack) > MAX_STACK_SIZE", "MAX_STACK_SIZE < len(stack) + len(altstack)")),
 ]
 
